@@ -40,6 +40,11 @@ Proof.
   apply IH.
 Qed.
 
+Lemma eval_segs_cons t0 e ts c cs t :
+  eval_segs t0 (e :: ts) (c :: cs) t =
+  if Qlt_b t e then (if Qle_bool t0 t then c else 0) else eval_segs e ts cs t.
+Proof. reflexivity. Qed.
+
 Lemma eval_app ts1 : forall t0 cs1 ts2 cs2 t,
   length ts1 = length cs1 -> ts1 <> [] -> incr_from t0 ts1 ->
   eval_segs t0 (ts1 ++ ts2) (cs1 ++ cs2) t =
@@ -52,8 +57,10 @@ Proof.
     destruct (Qlt_b t e); reflexivity.
   - change (last (e :: e' :: ts1) t0) with (last (e' :: ts1) t0).
     rewrite (last_default_irrel (e' :: ts1) t0 e) by congruence.
-    cbn [app eval_segs].
-    change (e' :: ts1 ++ ts2) with ((e' :: ts1) ++ ts2).
+    change ((e :: e' :: ts1) ++ ts2) with (e :: ((e' :: ts1) ++ ts2)).
+    change ((c :: cs1) ++ cs2) with (c :: (cs1 ++ cs2)).
+    rewrite (eval_segs_cons t0 e ((e' :: ts1) ++ ts2) c (cs1 ++ cs2) t).
+    rewrite (eval_segs_cons t0 e (e' :: ts1) c cs1 t).
     assert (HL' : length (e' :: ts1) = length cs1) by (cbn in *; lia).
     rewrite (IH e cs1 ts2 cs2 t HL' ltac:(congruence) Hi).
     pose proof (incr_last_ge e (e' :: ts1) Hi) as HG.
@@ -173,4 +180,94 @@ Proof.
       destruct (Qle_bool lst t) eqn:E1; qb.
       * apply Core. lra.
       * apply eval_segs_below; [lra|exact Hinc].
+Qed.
+
+(* the whole discrete channel *)
+Lemma chan_eval l ms md ts cs ms' md' :
+  chain_ord 0 l -> gaps_ok 0 l -> Forall (fun i => is_discrete (p_wave i)) l ->
+  concat_chan true true 0 ms md l = Some (ts, cs, ms', md') ->
+  forall t, eval_step ts cs t = spec_eval l t.
+Proof.
+  intros HC HG HD H t. destruct l as [|i rest].
+  - cbn in H. injection H as <- <- _ _. reflexivity.
+  - apply concat_first in H. destruct H as (ts0 & cs0 & H & -> & Hcs).
+    destruct Hcs as [[_ ->]|[_ [Hnd _]]].
+    2:{ exfalso. apply Hnd. exact (Forall_inv HD). }
+    cbn [eval_step]. rewrite (chan_eval_nf _ _ _ _ _ _ _ _ HC HG HD H t).
+    destruct (Qle_bool 0 t) eqn:E; [reflexivity|]. qb.
+    symmetry. apply (spec_before _ 0); assumption.
+Qed.
+
+(* ---------- continuous channels: which samples the compiled arrays contain ---------- *)
+(* the samples k >= 1 of an instruction, at their absolute times (sample 0 is dropped by the code) *)
+Definition samples (i : pinstr) : list (Q * Q) :=
+  combine (map (fun x => x + p_start i) (tl (w_ts (p_wave i)))) (tl (w_cs (p_wave i))).
+
+Lemma combine_app {A B} (a b : list A) (c d : list B) :
+  length a = length c -> combine (a ++ b) (c ++ d) = combine a c ++ combine b d.
+Proof.
+  revert c. induction a as [|x a IH]; intros [|y c] H; try discriminate; [reflexivity|].
+  cbn. f_equal. apply IH. cbn in H. lia.
+Qed.
+
+Lemma combine_zeros l t c : In (t, c) (combine l (zeros l)) -> c = 0.
+Proof.
+  induction l as [|x l IH]; [intros []|]. cbn. intros [H|H]; [congruence|auto].
+Qed.
+
+Definition wf_cont (i : pinstr) : Prop := wf_wave (p_wave i) /\ is_continuous (p_wave i).
+
+Lemma chan_samples_nf l : forall lst ms md ts cs ms' md',
+  Forall wf_cont l ->
+  concat_chan true false lst ms md l = Some (ts, cs, ms', md') ->
+  (forall i, In i l -> incl (samples i) (combine ts cs)) /\
+  (forall t c, In (t, c) (combine ts cs) -> c = 0 \/ exists i, In i l /\ In (t, c) (samples i)).
+Proof.
+  induction l as [|i rest IH]; intros lst ms md ts cs ms' md' HW H.
+  - cbn in H. injection H as <- <- _ _. split; [intros i []|intros t c []].
+  - pose proof (Forall_inv HW) as [Hw Hc]. apply Forall_inv_tail in HW.
+    apply concat_chan_inv in H.
+    destruct H as (gt & co & step & m & idl & lst' & ts' & cs' & EP & EI & EL & ER & Ets & Ecs).
+    cbn in Ets, Ecs. subst ts cs.
+    rewrite (pgp_continuous _ Hw Hc) in EP.
+    assert (gt = tl (w_ts (p_wave i))) by congruence.
+    assert (co = tl (w_cs (p_wave i))) by congruence. subst gt co. clear EP.
+    destruct (IH _ _ _ _ _ _ _ HW ER) as [IA IB]. clear IH.
+    assert (L1 : length idl = length (zeros idl)) by (symmetry; apply zeros_length).
+    assert (L2 : length (map (fun x => x + p_start i) (tl (w_ts (p_wave i)))) = length (tl (w_cs (p_wave i)))).
+    { rewrite map_length. unfold is_continuous in Hc.
+      destruct (w_ts (p_wave i)); destruct (w_cs (p_wave i)); cbn in *; lia. }
+    rewrite (combine_app _ _ _ _ L1), (combine_app _ _ _ _ L2). fold (samples i).
+    split.
+    + intros j [<-|Hj] x Hx.
+      * apply in_or_app. right. apply in_or_app. left. exact Hx.
+      * apply in_or_app. right. apply in_or_app. right. exact (IA j Hj x Hx).
+    + intros t c HI. apply in_app_or in HI. destruct HI as [HI|HI].
+      * left. exact (combine_zeros _ _ _ HI).
+      * apply in_app_or in HI. destruct HI as [HI|HI].
+        -- right. exists i. split; [left; reflexivity|exact HI].
+        -- destruct (IB t c HI) as [Z|(j & Hj & Hs)]; [left; exact Z|].
+           right. exists j. split; [right; exact Hj|exact Hs].
+Qed.
+
+Lemma chan_samples l ms md ts cs ms' md' :
+  l <> [] -> Forall wf_cont l ->
+  concat_chan true true 0 ms md l = Some (ts, cs, ms', md') ->
+  length ts = length cs /\
+  (forall i, In i l -> incl (samples i) (combine ts cs)) /\
+  (forall t c, In (t, c) (combine ts cs) -> c = 0 \/ exists i, In i l /\ In (t, c) (samples i)).
+Proof.
+  intros Hne HW H. destruct l as [|i rest]; [congruence|].
+  pose proof (chan_lengths_first _ _ _ _ _ _ _ _ _ H) as HL.
+  apply concat_first in H. destruct H as (ts0 & cs0 & H & -> & Hcs).
+  pose proof (Forall_inv HW) as [Hw Hc].
+  destruct Hcs as [[Hd _]|[_ [_ ->]]].
+  { exfalso. unfold is_discrete, is_continuous in *. lia. }
+  destruct (chan_samples_nf _ _ _ _ _ _ _ _ HW H) as [IA IB].
+  split.
+  - destruct HL as [[Hd _]|[_ [_ HL]]]; [|exact HL].
+    exfalso. unfold is_discrete, is_continuous in *. lia.
+  - cbn [combine]. split.
+    + intros j Hj x Hx. right. exact (IA j Hj x Hx).
+    + intros t c [HI|HI]; [left; congruence|exact (IB t c HI)].
 Qed.
